@@ -57,8 +57,10 @@ def run(module, cfg, workdir, workers=None, simulate=None, depth=None, seed=None
     cfgpath = cfg if os.path.isabs(cfg) else os.path.join(specdir, cfg)
     meta = os.path.join(workdir, "meta.%d.%d" % (os.getpid(), int(time.time() * 1e6) % 10**9))
     cmd = ["java", "-XX:+UseParallelGC", "-Xss16m"]
-    if java_opts:
-        cmd += list(java_opts)
+    opts = list(java_opts or [])
+    if not any(o.startswith("-Xmx") for o in opts):
+        opts.append("-Xmx%dg" % (8 if (workers in (None, "auto") or int(workers) >= 12) else 3))
+    cmd += opts
     cmd += ["-cp", _classpath(), "tlc2.TLC", "-metadir", meta, "-noGenerateSpecTE", "-config", cfgpath]
     cmd += ["-workers", str(workers or "auto")]
     if simulate is not None:
